@@ -100,6 +100,10 @@ func Offsets(m map[string]map[int]int64) string {
 }
 
 func (m *Mock) Handle(c kafka.VerifCoordCall) kafka.VerifCoordReply {
+	if c.Method == "outcome" { // byte-level path: what the library's real Conn call concluded
+		kafka.VerifGroupEmit("M.Wire", c.Conn, c.Of, ClassOfHook(c.Outcome))
+		return kafka.VerifCoordReply{}
+	}
 	if c.Method == "close" {
 		kafka.VerifGroupEmit("M.Close", c.Conn)
 		return kafka.VerifCoordReply{}
@@ -110,6 +114,11 @@ func (m *Mock) Handle(c kafka.VerifCoordCall) kafka.VerifCoordReply {
 	}
 	kafka.VerifGroupEmit("M.Call", c.Conn, c.Method, Mem(c.MemberID), c.GenerationID, topics, Offsets(c.Offsets))
 	var r kafka.VerifCoordReply
+	if c.Dead { // byte-level path, connection already dropped: the call fails locally, nothing to decide
+		r = kafka.VerifCoordReply{Err: errors.New("connection is dead")}
+		m.emitRet(c, r)
+		return r
+	}
 	if m.Auto != nil {
 		if a, ok := m.Auto(c); ok {
 			r = a
